@@ -126,7 +126,7 @@ func (ir *initReader) global(g *ssa.Global) *GVal {
 	init := g.Pkg.Func("init")
 	var stores []*ssa.Store
 	if init != nil {
-		allInstrs(init, false, func(in ssa.Instruction) {
+		rawInstrs(init, false, func(in ssa.Instruction) {
 			if st, ok := in.(*ssa.Store); ok && st.Addr == ssa.Value(g) {
 				stores = append(stores, st)
 			}
@@ -157,7 +157,7 @@ func (ir *initReader) refsOf(addr ssa.Value) *[]ssa.Instruction {
 	if g, ok := addr.(*ssa.Global); ok {
 		var out []ssa.Instruction
 		if init := g.Pkg.Func("init"); init != nil {
-			allInstrs(init, false, func(in ssa.Instruction) {
+			rawInstrs(init, false, func(in ssa.Instruction) {
 				switch x := in.(type) {
 				case *ssa.FieldAddr:
 					if x.X == addr {
@@ -259,7 +259,7 @@ func (ir *initReader) fromCell(addr ssa.Value) *GVal {
 // writesFreeVar: does the closure (or a closure nested in it) assign the captured variable?
 func writesFreeVar(f *ssa.Function, fv *ssa.FreeVar) bool {
 	w := false
-	allInstrs(f, false, func(in ssa.Instruction) {
+	rawInstrs(f, false, func(in ssa.Instruction) {
 		if st, ok := in.(*ssa.Store); ok && st.Addr == ssa.Value(fv) {
 			w = true
 		}
@@ -435,7 +435,7 @@ func predicateTrueSet(fn *ssa.Function, lo, hi int64) (ranges [][2]int64, err er
 	}
 	// no calls / loads allowed: the function must be pure control flow
 	var bad error
-	allInstrs(fn, false, func(in ssa.Instruction) {
+	rawInstrs(fn, false, func(in ssa.Instruction) {
 		switch in.(type) {
 		case *ssa.BinOp, *ssa.UnOp, *ssa.If, *ssa.Jump, *ssa.Return, *ssa.Phi, *ssa.Convert, *ssa.ChangeType, *ssa.DebugRef:
 			if u, ok := in.(*ssa.UnOp); ok && u.Op != token.NOT {
